@@ -469,3 +469,38 @@ func storesFieldBool(in ssa.Instruction, f *typesVar, val bool) bool {
 	bv, isC := boolConst(st.Val)
 	return isC && bv == val
 }
+
+// bart.Lite embeds a generic liteTable: Contains resolves to the promoted method.
+var bartContainsRefs = []Ref{{"github.com/gaissmai/bart", "Lite", "Contains"}, {"github.com/gaissmai/bart", "liteTable", "Contains"}}
+
+// fromFieldLoad: v is (an address inside / a load of) the value held in field f.
+func fromFieldLoad(f *typesVar) func(ssa.Value) bool {
+	return func(v ssa.Value) bool {
+		return f != nil && derivesFrom(v, sliceLocal, func(x ssa.Value) bool { return loadsField(x, f) })
+	}
+}
+
+// bartContains: table.Contains(addr) on the table held in field f.
+func bartContains(f *typesVar, arg func(ssa.Value) bool) CallSpec {
+	cs := CallSpec{Refs: bartContainsRefs, Args: map[int]func(ssa.Value) bool{0: fromFieldLoad(f)}}
+	if arg != nil {
+		cs.Args[1] = arg
+	}
+	return cs
+}
+
+// sameVar: a and b are the same SSA value, or loads of the same local variable cell.
+func sameVar(a, b ssa.Value) bool {
+	a, b = stripValue(a), stripValue(b)
+	if a == b {
+		return true
+	}
+	ua, ok1 := a.(*ssa.UnOp)
+	ub, ok2 := b.(*ssa.UnOp)
+	if ok1 && ok2 && ua.Op == token.MUL && ub.Op == token.MUL {
+		if _, isAlloc := ua.X.(*ssa.Alloc); isAlloc && ua.X == ub.X {
+			return true
+		}
+	}
+	return false
+}
